@@ -100,7 +100,7 @@ func FromStats(prop, name string, bound int, st *sched.Stats) *ScenarioResult {
 func ExploreScenario(c *Ctx, prop, name string, opt sched.Options, body func(), judge sched.Judge) *ScenarioResult {
 	t0 := time.Now()
 	if c.Replay != nil {
-		sched.BoundAll, sched.NoEarlyClock = opt.BoundAll, opt.NoEarlyClock
+		sched.BoundAll, sched.NoEarlyClock, sched.HoldBack, sched.HoldLagNs = opt.BoundAll, opt.NoEarlyClock, opt.HoldBack, opt.HoldLagNs
 		e := sched.Replay(c.Replay.Choices, opt.MaxSteps, body)
 		outcome, digest, fail := judge(e)
 		for _, l := range e.Log {
